@@ -656,7 +656,7 @@ func (s *Solver) oneShot(vals []*Term) (string, []uint64) {
 			res = "unsat"
 		}
 	}
-	if strings.Contains(text, "(error") && res != "unsat" {
+	if strings.Contains(text, "(error \"") && res != "unsat" {
 		// errors after an unsat verdict are only the refused get-value
 		s.Errors = append(s.Errors, "one-shot: "+strings.TrimSpace(text))
 		res = "unknown"
